@@ -203,6 +203,9 @@ class Pkg(object):
         _canon.FOREIGN.update(_canon.build_foreign({name: m.tree for name, m in self.mods.items()}, _KNOWN))
         for mod in self.mods.values():
             mod.canonicalise()
+        if os.environ.get("SA_NO_CANON") != "1":
+            _canon.drop_dead_foreign({name: m.tree for name, m in self.mods.items()}, [m.canon_log for m in self.mods.values()])
+        for mod in self.mods.values():
             self._index(mod)
         self.digest = h.hexdigest()
 
